@@ -45,7 +45,7 @@ TABLE = {
   ('C04_spec_frame', 'FinalP', 'spec_frame'), ('C04_versions_isolated', 'FinalP', 'versions_isolated'), ('C04_versions_isolated_obs', 'FinalP', 'versions_isolated_obs'),
   ('C04_hash_frame', 'HashP', 'mvalid_changes'), ('C04_intra_frame', 'IntraP', 'mvalid_hchanges'),
   ('C04_rebase_base_untouched', 'RebaseP', 'coll_rebase_on_spec'),
-  ('C04_builder_never_touches_registers', 'BuilderSysP', 'builder_regs_frame'), ('C04_regs_frame', 'Refine', 'step_regs_frame'), ('C04_refines', 'Refine', 'step_refines'),
+  ('C04_equality_stable', 'RoundtripP', 'eq_stable'), ('C04_equality_stable_u64', 'RoundtripP', 'eq_stable_u64'), ('C04_builder_never_touches_registers', 'BuilderSysP', 'builder_regs_frame'), ('C04_regs_frame', 'Refine', 'step_regs_frame'), ('C04_refines', 'Refine', 'step_refines'),
  ],
  'C05': [
   ('C05_push_full', 'IfaceP', 'push_spec_full'), ('C05_push_vector', 'IfaceP', 'push_spec_vector'),
@@ -109,7 +109,7 @@ TABLE = {
   ('C12_encode', 'CollObsP', 'ssz_encode_spec'), ('C12_bytes_len', 'CollObsP', 'ssz_bytes_len_spec'),
   ('C12_roundtrip', 'CollObsP', 'list_from_ssz_roundtrip'), ('C12_strict', 'CollObsP', 'list_from_ssz_strict_spec'),
   ('C12_vec_roundtrip', 'CollObsP', 'vector_from_ssz_roundtrip'), ('C12_enc_refines', 'RefineB', 'refines_OSszEnc_valid'), ('C12_dec_refines', 'RefineB', 'refines_OSszList'), ('C12_vec_strict', 'CollObsP', 'vector_from_ssz_strict_spec'),
-  ('C12_quad_codec', 'QuadP', 'ek_quad_codec'), ('C12_quad_decode_iff', 'QuadP', 'quad_decode_iff'), ('C12_quad_vec_decode_iff', 'QuadP', 'quad_vec_decode_iff'), ('C12_list_decode_iff', 'SszDetP', 'ssz_list_decode_iff'), ('C12_vec_decode_iff', 'SszDetP', 'ssz_vec_decode_iff'),
+  ('C12_roundtrip_any_original', 'RoundtripP', 'ssz_list_roundtrip'), ('C12_roundtrip_any_original_vec', 'RoundtripP', 'ssz_vec_roundtrip'), ('C12_roundtrip_closed_u64', 'RoundtripP', 'ssz_list_roundtrip_u64'), ('C12_quad_codec', 'QuadP', 'ek_quad_codec'), ('C12_quad_decode_iff', 'QuadP', 'quad_decode_iff'), ('C12_quad_vec_decode_iff', 'QuadP', 'quad_vec_decode_iff'), ('C12_list_decode_iff', 'SszDetP', 'ssz_list_decode_iff'), ('C12_vec_decode_iff', 'SszDetP', 'ssz_vec_decode_iff'),
   ('C12_spec_decode_iff', 'Refine', 'spec_ssz_list_iff'), ('C12_spec_decode_vec_iff', 'Refine', 'spec_ssz_vec_iff'),
   ('C12_serialize_injective', 'RefineB', 'serialize_inj_on'), ('C12_decode_full', 'RefineB', 'list_from_ssz_full'), ('C12_decode_vec_full', 'RefineB', 'vector_from_ssz_full'),
   ('C12_spec_det', 'Refine', 'spec_det'),
@@ -117,7 +117,7 @@ TABLE = {
  ],
  'C13': [
   ('C13_ser', 'CollObsP', 'serde_ser_spec'), ('C13_de_list', 'CollObsP', 'list_serde_de_ok'), ('C13_de_list_too_long', 'CollObsP', 'list_serde_de_fail'),
-  ('C13_de_vec', 'CollObsP', 'vector_serde_de_ok'), ('C13_de_vec_wrong_len', 'CollObsP', 'vector_serde_de_fail'), ('C13_ser_refines', 'RefineB', 'refines_OSerdeSer'), ('C13_de_refines', 'RefineB', 'refines_OSerdeList'), ('C13_de_vec_refines', 'RefineB', 'refines_OSerdeVec'), ('C13_de_eq', 'CodecP', 'list_serde_de_eq'),
+  ('C13_de_vec', 'CollObsP', 'vector_serde_de_ok'), ('C13_de_vec_wrong_len', 'CollObsP', 'vector_serde_de_fail'), ('C13_ser_refines', 'RefineB', 'refines_OSerdeSer'), ('C13_de_refines', 'RefineB', 'refines_OSerdeList'), ('C13_de_vec_refines', 'RefineB', 'refines_OSerdeVec'), ('C13_de_eq', 'CodecP', 'list_serde_de_eq'), ('C13_roundtrip_any_original', 'RoundtripP', 'serde_list_roundtrip'), ('C13_roundtrip_any_original_vec', 'RoundtripP', 'serde_vec_roundtrip'), ('C13_roundtrip_closed_u64', 'RoundtripP', 'serde_list_roundtrip_u64'),
  ],
  'C14': [
   ('C14_quad_maps_unobservable', 'QuadP', 'quad_maps_unobservable'), ('C14_closed_u64', 'Instances', 'maps_unobservable_u64'), ('C14_closed_nested', 'NestedP', 'maps_unobservable_nl'), ('C14_every_kind_every_pair_of_maps', 'ClosureP', 'maps_unobservable_all'), ('C14_three_maps_agree', 'ClosureP', 'maps_unobservable_three'),
